@@ -11,7 +11,7 @@ import os
 import re
 import tempfile
 
-from .. import core, tlcrun, par, node
+from .. import core, tlcrun, par, node, messages
 from ..text import s, ss
 from .c12 import partitions, cut
 
@@ -25,24 +25,24 @@ def js_result(r):
     res = {'recs': [], 'bom': False, 'firstdef': 0, 'ragged': [], 'err': False, 'errnr': 0, 'errnl': 0}
     if r.get('error'):
         msg = r['error']['msg']
-        m = _err.search(msg)
-        if not m:
+        if r['error']['cls'] != 'RbqlIOHandlingError':
             return {'other_error': r['error']['cls'] + ': ' + msg}
+        rl = messages.record_and_line(msg)
+        if rl is None:
+            return {'other_error': 'IOERR ' + msg}       # an IO-handling error that cites no record / line: the decoding error
         res['err'] = True
-        res['errnr'] = int(m.group(1))
-        res['errnl'] = int(m.group(2))
+        res['errnr'], res['errnl'] = rl
         res['firstdef'] = res['errnl']
         return res
     res['recs'] = r['records']
     for w in r.get('warnings') or []:
-        if 'BOM' in w:
+        k = messages.classify_warning(w)
+        if k[0] == 'bom':
             res['bom'] = True
-        m = _def.search(w)
-        if m:
-            res['firstdef'] = int(m.group(1))
-        m = _rag.search(w)
-        if m:
-            res['ragged'] = [int(x) for x in m.groups()]
+        elif k[0] == 'quoting':
+            res['firstdef'] = k[1]
+        elif k[0] == 'ragged':
+            res['ragged'] = k[1]
     return res
 
 
@@ -53,7 +53,7 @@ def expected(case):
 
 def compare(case, got, sig_base):
     if not case['valid']:
-        if 'other_error' in got and 'decode' in got['other_error']:
+        if 'other_error' in got and got['other_error'].startswith('IOERR'):
             return None
         return dict(sig_base, what='invalid UTF-8 not reported as a decoding IO error', got=got)
     if 'other_error' in got:
@@ -158,7 +158,7 @@ def queue_schedules(run):
         run.traces += 1
         run.count(['queue', t['policy'], str(t['schedule']), len(t['bytes'])], nontrivial=len(t['schedule'][0]) < len(t['bytes']))
         if 'other_error' in got:
-            t.update(ioerr='decode' in got['other_error'], other='decode' not in got['other_error'], result={'recs': [], 'bom': False, 'firstdef': 0, 'ragged': [], 'err': False, 'errnr': 0, 'errnl': 0}, msg=got['other_error'])
+            t.update(ioerr=got['other_error'].startswith('IOERR'), other=not got['other_error'].startswith('IOERR'), result={'recs': [], 'bom': False, 'firstdef': 0, 'ragged': [], 'err': False, 'errnr': 0, 'errnl': 0}, msg=got['other_error'])
         else:
             got = dict(got)
             got['recs'] = [[list(map(ord, f)) for f in rec] for rec in got['recs']]
